@@ -141,10 +141,10 @@ def run(prog, tier):
                                'writes a diagnostic to stderr; only the deprecation stubs and the error-overwrite diagnostics may',
                                why='member of the frozen diagnostic set')
     # setlocale bracket
-    users = [n for n in funcs if 'setlocale' in cg.get(n, ())]
-    for name in sorted(users):
+    users = sorted({o for n in funcs if 'setlocale' in cg.get(n, ()) for o in transparent_owners(funcs, cg, n)})
+    for name in users:
         f = funcs[name]
-        locale_bracket(chk, f)
+        locale_bracket(chk, f, prog)
     chk.coverage_extra['functions_calling_setlocale'] = users
 
     # ---- (4) complete initialisation of handed-out objects -------------------------------------------------
@@ -285,48 +285,95 @@ def failed_mutators(prog, chk, tier):
     chk.floor('failure exits of the crystal mutators', n, 10)
 
 
-def locale_bracket(chk, f):
-    """query (setlocale(cat, NULL)) -> copy -> set -> ... -> restore from the copy, on every exit; copy released."""
-    calls = [c for c in walk(f['body']) if c.get('k') == 'CallExpr' and c.get('callee') == 'setlocale']
-    loc = '%s:%d' % (f['rel'], calls[0]['ln'])
-    name = f['name']
+def transparent_owners(funcs, cg, name):
+    """the functions a call inside `name` is attributed to: `name` itself, unless it is a transparent static helper (a static function
+    no rule mentions: the engine inlines those) - then the functions that call it, found through any number of such helpers.  A few
+    lines moved into a helper, or a helper inlined, leave the attribution unchanged."""
+    from xvlib.absint import rule_named_functions
+    named = rule_named_functions()
 
-    def is_null(a):
-        a = strip_casts(a)
-        return a.get('val') == 0 or a.get('v') == 0
-    query = [c for c in calls if is_null(c['args'][1])]
-    sets_ = [c for c in calls if not is_null(c['args'][1])]
-    ok_query = len(query) == 1
-    # the query result must be copied (strdup) into a local
-    copied = None
-    if ok_query:
-        for n in walk(f['body']):
-            if n.get('k') == 'BinaryOperator' and n.get('op') == '=' and n['c'][0].get('k') == 'DeclRefExpr':
-                rhs = strip_casts(n['c'][1])
-                if rhs.get('k') == 'CallExpr' and rhs.get('callee') in ('xrl_strdup', 'strdup') and query[0] in list(walk(rhs)):
-                    copied = n['c'][0]['name']
-    chk.decide(ok_query and copied is not None, 'locale-bracket', f['unit'], name, 'query-and-copy', loc,
+    def transparent(n):
+        f = funcs.get(n)
+        return f is not None and f.get('static') and n not in named and n not in cg.get(n, ())
+    out, seen, work = set(), set(), [name]
+    while work:
+        n = work.pop()
+        if n in seen:
+            continue
+        seen.add(n)
+        callers = [c for c in funcs if n in cg.get(c, ())]
+        if transparent(n) and callers:
+            work.extend(callers)
+        else:
+            out.add(n)
+    return out
+
+
+def locale_bracket(chk, f, prog):
+    """query (setlocale(cat, NULL)) -> copy -> set -> ... -> restore from the copy, on every exit.  Decided on the abstract paths of
+    the function (transparent static helpers inlined by the engine): on every path that touches the locale the setlocale calls must
+    read  query, change, restore  with one category, the restore's argument being the duplicated result of the query, and no exit
+    of the function may lie between the change and the restore."""
+    from xvlib.absint import Interp, Inconclusive
+    name = f['name']
+    loc = '%s:%d' % (f['rel'], f['ln'])
+    try:
+        it = Interp(prog, f, max_paths=3000)
+        paths = it.run()
+    except Inconclusive as e:
+        raise AnalysisBroken('locale bracket of %s: %s' % (name, e))
+    seqs = {}
+    for p in paths:
+        ev = [e for e in p.events if e.kind == 'call' and e.name in ('setlocale', 'strdup', 'xrl_strdup')]
+        if not any(e.name == 'setlocale' for e in ev):
+            continue
+        key = tuple((e.name, tuple(a.canon() if a is not None else '?' for a in (e.args or []))) for e in ev)
+        seqs.setdefault(key, ev)
+    chk.floor('paths of %s that touch the locale' % name, len(seqs), 1)
+    q_ok = r_ok = x_ok = True
+    why_q = why_r = why_x = ''
+    open_paths, closed = [], 0
+    for key, ev in sorted(seqs.items(), key=lambda kv: kv[0]):
+        sl = [e for e in ev if e.name == 'setlocale']
+
+        def arg(e, i):
+            a = (e.args or [None, None])[i] if len(e.args or []) > i else None
+            return a.canon() if a is not None else '?'
+        first = sl[0]
+        copies = [e for e in ev if e.name != 'setlocale' and e.args and e.args[0] is not None and first.result is not None and
+                  e.args[0].canon() == first.result.canon() and ev.index(e) > ev.index(first)]
+        changes_before_copy = [e for e in sl[1:] if copies and ev.index(e) < ev.index(copies[0])]
+        if arg(first, 1) != '0' or not copies or changes_before_copy:
+            q_ok = False
+            why_q = 'a path starts with setlocale(%s, %s)%s' % (arg(first, 0), arg(first, 1), '' if copies else ' and never duplicates the name that the query returned')
+            continue
+        copy = copies[0].result.canon()
+        restores = [e for e in sl[1:] if arg(e, 1) == copy]
+        changes = [e for e in sl[1:] if arg(e, 1) != copy]
+        cats = {arg(e, 0) for e in sl}
+        if len(changes) == 1 and not restores and arg(changes[0], 1) != '0' and len(cats) == 1:
+            open_paths.append('a path leaves the function after setlocale(%s, %s) without restoring the saved locale' % (arg(sl[-1], 0), arg(sl[-1], 1)))
+            continue
+        if len(changes) != 1 or not restores or len(cats) != 1 or any(arg(e, 1) == '0' for e in changes):
+            r_ok = False
+            why_r = 'a path makes %d temporary change(s) and %d restoration(s) from the saved copy, categories %s' % (len(changes), len(restores), sorted(cats))
+            continue
+        closed += 1
+        if sl[-1] is not restores[-1] or ev.index(changes[0]) > ev.index(restores[0]):
+            x_ok = False
+            why_x = 'a path leaves the function after setlocale(%s, %s) without a later restoration' % (arg(sl[-1], 0), arg(sl[-1], 1))
+    if open_paths and closed:
+        x_ok, why_x = False, open_paths[0]
+    elif open_paths:
+        r_ok, why_r = False, open_paths[0]
+    chk.decide(q_ok, 'locale-bracket', f['unit'], name, 'query-and-copy', loc,
                'the locale in force must be queried with setlocale(category, NULL) and copied before it is changed (the pointer returned '
-               'by a changing call names the NEW locale and may be overwritten by later calls)', why='queried and duplicated into %s' % copied)
-    if copied is None:
+               'by a changing call names the NEW locale and may be overwritten by later calls): ' + why_q, why='queried and duplicated on %d path shape(s)' % len(seqs))
+    if not q_ok:
         return
-    restore = [c for c in sets_ if strip_casts(c['args'][1]).get('name') == copied]
-    change = [c for c in sets_ if strip_casts(c['args'][1]).get('name') != copied]
-    same_cat = len({show(c['args'][0]) for c in calls}) == 1
-    chk.decide(len(restore) >= 1 and len(change) == 1 and same_cat, 'locale-bracket', f['unit'], name, 'restore', loc,
-               'the saved locale must be restored with the same category after the temporary change', why='restored from the copy')
-    # restore happens before every return that follows the change: the bracket must not contain a return
-    body = f['body'].get('c', [])
-    idx_change = idx_restore = None
-    for i, st in enumerate(body):
-        if change and change[0] in list(walk(st)):
-            idx_change = i
-        if restore and restore[0] in list(walk(st)) and idx_restore is None:
-            idx_restore = i
-    inside_ret = False
-    if idx_change is not None and idx_restore is not None:
-        for st in body[idx_change:idx_restore]:
-            if any(x.get('k') == 'ReturnStmt' for x in walk(st)):
-                inside_ret = True
-    chk.decide(idx_change is not None and idx_restore is not None and idx_change < idx_restore and not inside_ret, 'locale-bracket',
-               f['unit'], name, 'no-exit-inside', loc, 'an exit lies between the locale change and its restoration', why='no return inside the bracket')
+    chk.decide(r_ok, 'locale-bracket', f['unit'], name, 'restore', loc,
+               'the saved locale must be restored with the same category after the temporary change: ' + why_r, why='restored from the copy')
+    if not r_ok:
+        return
+    chk.decide(x_ok, 'locale-bracket', f['unit'], name, 'no-exit-inside', loc, 'an exit lies between the locale change and its restoration: ' + why_x,
+               why='every path that changes the locale restores it last')
